@@ -22,11 +22,14 @@ VectorForms == {"vec3", "vec3time", "matrix"}
 Units == {"m", "meter", "km", "cm", "s"}
 
 Cases ==
-  {[grid |-> g, form |-> f, pu |-> pu, ou |-> ou, iu |-> iu] :
+  {[grid |-> g, form |-> f, pu |-> pu, ou |-> ou, iu |-> iu, om |-> "flex"] :
      g \in {"g23"}, f \in GridForms, pu \in {"", "m", "km", "s"}, ou \in {"m", "km"}, iu \in {"", "m", "meter", "cm"}} \cup
-  {[grid |-> g, form |-> f, pu |-> pu, ou |-> ou, iu |-> iu] :
+  (* the output's metadata carries a fixed mask: plain payloads get exactly that mask *)
+  {[grid |-> g, form |-> f, pu |-> pu, ou |-> ou, iu |-> iu, om |-> "fixed"] :
+     g \in {"g23"}, f \in {"shaped", "timeaxis", "flat", "list"}, pu \in {"", "m", "km", "cm", "s"}, ou \in {"m", "km"}, iu \in {"", "cm"}} \cup
+  {[grid |-> g, form |-> f, pu |-> pu, ou |-> ou, iu |-> iu, om |-> "flex"] :
      g \in {"nogrid"}, f \in ScalarForms, pu \in {"", "m", "meter", "km", "cm", "s"}, ou \in {"m", "km"}, iu \in {"", "m", "km", "cm"}} \cup
-  {[grid |-> g, form |-> f, pu |-> pu, ou |-> ou, iu |-> iu] :
+  {[grid |-> g, form |-> f, pu |-> pu, ou |-> ou, iu |-> iu, om |-> "flex"] :
      g \in {"nogrid1"}, f \in VectorForms, pu \in {"", "km"}, ou \in {"m"}, iu \in {"", "cm"}}
 
 FormOK(c) ==
@@ -43,7 +46,7 @@ Expect(c) ==
   IN IF ~Compatible(pu, c.ou) \/ ~FormOK(c)
      THEN [res |-> "FinamDataError", shape |-> <<>>, fac |-> <<0, 1>>, units |-> "", masked |-> FALSE]
      ELSE [res |-> "ok", shape |-> Shape(c), fac |-> Factor(pu, iu), units |-> Canon(iu),
-           masked |-> c.form = "masked"]
+           masked |-> c.form = "masked" \/ c.om = "fixed"]
 
 (* theorems checked by TLC over the whole case space *)
 ASSUME \A a \in Units, b \in Units, d \in Units :
